@@ -331,7 +331,17 @@ func Settle(base int) bool {
 	t0 := time.Now()
 	for time.Since(t0) < 3*time.Second {
 		if runtime.NumGoroutine() <= base {
-			return true
+			// NumGoroutine is computed without stopping the world and can transiently
+			// under-report under heavy goroutine churn: confirm on consecutive polls
+			ok := true
+			for i := 0; i < 3 && ok; i++ {
+				runtime.Gosched()
+				ok = runtime.NumGoroutine() <= base
+			}
+			if ok {
+				return true
+			}
+			continue
 		}
 		runtime.Gosched()
 		if time.Since(t0) > 2*time.Millisecond {
